@@ -4,7 +4,7 @@ import os
 
 from hypothesis import strategies as st
 
-from vlib import clock, programs, rawio
+from vlib import clock, locks, programs, rawio
 from vlib.driver import Outcome, newdir
 from vlib.model import Battery, Model
 
@@ -66,6 +66,7 @@ def execute(case):
     out = Outcome()
     out.evals = 0
     clock.install()
+    locks.install()
     clock.reset()
     d = newdir()
     datafs = os.path.join(d, 'Data.fs')
